@@ -4,7 +4,7 @@ import os
 
 ROOT = os.path.dirname(os.path.dirname(os.path.abspath(__file__)))
 P_TECH = 'TLC enumeration of the TLA+ reference model (EAOModel) + two-way conformance (behaviour replay into the assembled problem, TLC trace validation of extract_output)'
-P_NOTE = 'Bounded (T<=5, integer lattice data, small portfolios); trusted base: TLC, scipy HiGHS as feasibility oracle, pandas calendar arithmetic, documented parameter domains (DESIGN.md 5.1).'
+P_NOTE = 'Exhaustive part bounded (T<=6, integer lattice data, small portfolios); longer horizons (T=10/16) only by TLC -simulate walks replayed into the code and by trace validation of optimised runs (T=12/24); trusted base: TLC, scipy HiGHS as feasibility oracle, pandas calendar arithmetic, documented parameter domains (DESIGN.md 5.1).'
 
 CHECKS = {
     'C02': dict(engine='tlc-eaomodel', technique=P_TECH, cat='model_checking', ref='DESIGN.md 4 (C02), 3.3, 3.4',
@@ -12,7 +12,7 @@ CHECKS = {
                 note=P_NOTE),
     'C05': dict(engine='tlc-eaomodel', technique=P_TECH, cat='model_checking', ref='DESIGN.md 4 (C05)',
                 text='Storage guards of the TLA+ model (rates, level bounds, end level, blocks, no-simultaneous, holding duration) are enumerated by TLC over storage-centred families; strict schedules must be feasible/equally priced in the real problem, near-misses of each guard infeasible; the reported fill level / charge / discharge series of optimised runs are validated against the specification level step by step.',
-                note=P_NOTE + ' Maximum holding duration with start_level = 0 in the quick tier; time-block families use start level = end level.'),
+                note=P_NOTE + ' Time-block families use start level = end level; blocks with holding duration only with start = end = 0.'),
     'C20': dict(engine='tlc-eaomodel', technique=P_TECH, cat='model_checking', ref='DESIGN.md 4 (C20)',
                 text='Order-book semantics (Commit action with fraction lattice {0,1/2,1}, delivery and per-step discounted payment over covered steps, inert out-of-horizon orders) enumerated by TLC; every behaviour replayed into the real problem, fraction near-misses rejected, optimum equal (full execution decided exactly), optimised runs trace-validated incl. DCF totals.',
                 note=P_NOTE),
@@ -24,9 +24,9 @@ CHECKS = {
                 note=P_NOTE),
     'C06': dict(engine='tlc-unitcommit', technique='TLC enumeration of the unit-commitment automaton (EAOUnitCommit) + exhaustive 2^T pattern comparison against the real Plant/CHP MIP (HiGHS) + behaviour replay + TLC trace validation of optimised runs', cat='model_checking', ref='DESIGN.md 4 (C06)',
                 text='TLC enumerates every reachable on/off pattern with candidate outputs of the runtime/downtime automaton for all (min runtime, min downtime, initial state) tuples (invariants MinRunInv, MinDownInv, StartInv, OffZeroInv); every one of the 2^T patterns is pinned in the real Plant problem: feasible <=> reachable; strict behaviours are replayed (value incl. start/running costs, fuel drawn per step), near-misses of every guard (min_run, min_down, off_output, cap, ramp, start_flag_missing, heat_share) must be infeasible; optimised runs (SCIP, default solver) are validated step by step by Trace_EAOUnitCommit.',
-                note='Bounded: T<=6 quick / <=8 thorough, integer data, equal step lengths, consistent declared initial state, elapsed durations multiples of the step; start/shutdown ramp profiles not modelled yet. Trusted: TLC, HiGHS (presolve off for MIP), SCIP.'),
+                note='Bounded: T<=6 quick / <=8 thorough, integer data, equal step lengths, consistent declared initial state, elapsed durations multiples of the step; start/shutdown ramp profiles in EAOUnitCommitRamp for plants that are off at the start (no heat profiles). Trusted: TLC, HiGHS (presolve off for MIP), SCIP.'),
     'C03': dict(engine='tlc-eaosolve', technique='TLC decides, for every recorded optimize() call, whether the recorded response is an enabled action of the EAOSolve specification (feasibility by row class, value, optimality / infeasibility by lattice enumeration)', cat='model_checking', ref='DESIGN.md 4 (C03), 2.4',
-                text='Real OptimProblem.optimize calls on tiny integral programs (all four row classes, booleans with non-0/1 bounds, duplicated mapping rows, infeasible programs, split concatenation) with every installed solver are recorded; TLC enumerates the lattice of each program and checks that a reported solution satisfies bounds / rows by class / booleans, that value = -c.x, that no lattice point is better, and that a reported failure comes with an empty feasible set.',
+                text='Real OptimProblem.optimize calls on tiny integral programs (all four row classes, booleans with non-0/1 bounds, duplicated mapping rows, infeasible programs, split concatenation, relaxed solves with make_soft_problem, and HISTORIES of relaxed / exact calls on one problem object) with every installed solver are recorded; TLC enumerates the lattice of each program and checks that a reported solution satisfies bounds / rows by class / booleans, that value = -c.x, that no lattice point is better, and that a reported failure comes with an empty feasible set.',
                 note='Programs have integral polytopes (interval rows) or integer variables so lattice enumeration is exact; ortools/CPLEX not installed; trusted: TLC.'),
     'C01': dict(engine='tlc-eaomodel', technique=P_TECH + '; light TLA+ abstraction Trace_Portfolio for all asset types and routes', cat='model_checking', ref='DESIGN.md 4 (C01)',
                 text='Balance is a guard of Step and the invariant BalanceInv of the TLA+ model; balanced lattice schedules are replayed (accepted), every imbalance of exactly one unit at one node and step (also through the second row of transports / commodity factors) must be infeasible; the reported dispatch of optimised runs is validated step by step (Trace_EAOModel for the reference families incl. split; Trace_Portfolio -- flows and attachment only -- for a zoo of 16 portfolios over all asset types along the routes monolithic, split, io.optimize).',
@@ -44,11 +44,11 @@ CHECKS = {
                 text='Specification level: for every configuration TLC enumerates it and a copy with permuted assets and renamed nodes; the behaviour sets must coincide up to the permutation. Binding: the SAME TLC output is replayed into realisations under permutations of the asset list and a catalogue of injective renamings of assets, nodes and structured wrappers (digit-only names of different lengths, names that are prefixes/suffixes of each other, names containing the separators "__", "_internal_", " ("); feasibility, values and per-asset cash flows must agree, optima must be equal, traces found by the new names are validated.',
                 note=P_NOTE),
     'C12': dict(engine='tlc-eaomodel', technique=P_TECH + '; the main time unit as a realisation axis of the same TLC output; unit-commitment pattern comparison under other units', cat='model_checking', ref='DESIGN.md 4 (C12)',
-                text='The TLA+ quantities are physical (rate x elapsed ticks); the SAME TLC behaviours and near-misses must be accepted/rejected and priced identically when the portfolio is realised with main time unit h, d, min (15min in the thorough tier) with rates and durations re-expressed: families with capacities, inflow, holding cost, maximum holding time, take periods, discounting (wacc=1, yearly steps), split routes, and grids with unequal steps (calendar days across both CET switches: 24/23/24, 24/25/24 hour ticks; months 31/28/31). Optimal values are compared across units; Plant on/off patterns are compared with the automaton under d and min.',
+                text='The TLA+ quantities are physical (rate x elapsed ticks); the SAME TLC behaviours and near-misses must be accepted/rejected and priced identically when the portfolio is realised with main time unit h, d, min (s in the thorough tier) with rates and durations re-expressed: families with capacities, inflow, holding cost, maximum holding time, take periods, discounting (wacc=1, yearly steps), split routes, and grids with unequal steps (calendar days across both CET switches: 24/23/24, 24/25/24 hour ticks; months 31/28/31). Optimal values are compared across units; Plant on/off patterns are compared with the automaton under d and min.',
                 note=P_NOTE),
     'C13': dict(engine='tlc-eaomodel', technique=P_TECH + '; coarse/periodic equalities as guards GroupChk/PeriodChk of the fine model', cat='model_checking', ref='DESIGN.md 4 (C13)',
                 text='The specification is the FINE model plus exactly the equalities (constant rate per coarse interval, same volume at the same position of every period within a duration; invariants GroupInv, PeriodInv); TLC enumerates all such schedules for every asset kind accepting the options (contract with one and two variables, transport, storage with one and two variables, multi-commodity); they are replayed into the coarse / periodic problem through the mapping rows (x_major from each minor step), non-constant schedules must not be representable, the optimum equals the lattice optimum of the constrained fine model, and the fine dispatch table of optimised runs is trace-validated.',
-                note=P_NOTE + ' Limits constant inside merged steps; coarse windows on coarse boundaries; wacc=0 for coarse assets.'),
+                note=P_NOTE + ' Limits constant inside merged steps; coarse windows START on coarse boundaries (they may end inside a coarse step); wacc=0 for coarse assets.'),
     'C16': dict(engine='tlc-eaomodel', technique=P_TECH + '; ScaledAsset / StructuredAsset as realisation routes of the same TLC output', cat='model_checking', ref='DESIGN.md 4 (C16)',
                 text='Scaled: the configuration states the asset AT scale s (capacities x s/norm, fixed cost s x rate per active tick as part of the step cost in EAOGuards); ScaledAsset(base, min=max=s) must accept exactly the TLC behaviours with equal per-asset value, near-misses rejected; free scale: optimum = best over the lattice of scales on families linear in the scale. Structured: wrapped (StructuredAsset incl. wrapper window clipping inner windows) and flat realisations conform to the same TLC behaviours, equal optimum.',
                 note=P_NOTE + ' Base assets without booleans.'),
@@ -62,7 +62,7 @@ CHECKS = {
                 text='EAOScenario forks the state at the stage boundary (present moves common, one future per scenario, invariants PresentShared/PresentCommon) and, in robust mode, values one schedule under every scenario. TLC gives the lattice SLP optimum, per-scenario optima and best worst case. Binding: make_slp(...).optimize() lies between the expected value of fixing the present to each single-scenario solution (fix_time_window) and the mean of the per-scenario optima, equals the deterministic optimum for coinciding scenarios and the model SLP optimum on integral instances, present variables occur once in the extended problem; the robust solution is feasible, its worst case is >= that of every single-scenario solution, <= the smallest scenario optimum and >= the model best worst case.',
                 note='2-3 scenarios, T=3, boundary after first / before last step; scenarios share present prices; trusted: TLC, HiGHS.'),
     'C10': dict(engine='tlc-eaohistory', technique='TLC exploration of the lifecycle model EAOHistory (labelled state graph) -> histories (all of length <= 2, one per transition via shortest path, random walks) executed on real objects, each returned problem compared with Fresh(call, arguments)', cat='model_checking', ref='DESIGN.md 4 (C10), 2.6',
-                text='EAOHistory models what the implementation keeps between calls (grid each asset points to, portfolio grid, whose window sits in the shared restricted grid, normal form of user dictionaries) with the public calls as actions (asset / portfolio set-up with and without grid, split set-up, optimise+output, save/load). TLC explores the graph (TypeOK, PortfolioOwnsGrid, FormMonotone); the harness executes the derived histories on real objects (contract with interval-dictionary limits and take period, storage, structured wrapper, market; grids with another horizon / zone) and compares every call with what brand-new objects return for the same arguments; the projected implementation state is compared with the model state as a diagnostic only.',
+                text='EAOHistory models what the implementation keeps between calls (grid each asset points to, portfolio grid, whose window sits in the shared restricted grid, normal form of user dictionaries) with the public calls as actions (cost sampling for robust / stochastic optimisation, asset / portfolio set-up with and without grid, split set-up, optimise+output, save/load). TLC explores the graph (TypeOK, PortfolioOwnsGrid, FormMonotone); the harness executes the derived histories on real objects (contract with interval-dictionary limits and take period, storage, structured wrapper, market; grids with another horizon / zone) and compares every call with what brand-new objects return for the same arguments; the projected implementation state is compared with the model state as a diagnostic only.',
                 note='Depth 3; quick tier samples the depth-3 transitions; violation criterion is only the returned problem / an unexpected exception.'),
     'C11': dict(engine='tlc-eaohistory', technique='TLC on the class-descriptor model EAOSerial (stored keys within accepted keywords, required keywords stored, grid fields) with descriptors recorded from the running code + behavioural save/load/re-save/set-up round trips per lifecycle state', cat='model_checking', ref='DESIGN.md 4 (C11), 2.6',
                 text='Descriptors (attribute keys written by to_json in the states fresh / after set-up / after optimise; constructor keywords and required keywords by inspection) of every asset class of the zoo are given to TLC, which moves each class through its lifecycle and checks LoadableInv and GridSurvives. Behaviourally, every zoo asset and 13 parameter forms (scalars, interval dictionaries as lists / numpy / DatetimeIndex / without end / zone-aware, date windows, column names, order books from dict and DataFrame) are saved, loaded, re-saved (same JSON) and set up on naive and CET grids against the original; portfolios with naive and CET grids must keep time points and zone and produce the identical problem.',
